@@ -39,6 +39,8 @@ PRELUDE = r'''
 #include "nmtools/array/view/kron.hpp"
 #include "nmtools/array/view/outer.hpp"
 #include "nmtools/array/ndarray/hybrid.hpp"
+#include "nmtools/array/ndarray/fixed.hpp"
+#include "nmtools/array/ndarray/dynamic.hpp"
 #include "nmtools/array/index/compute_strides.hpp"
 #include "nmtools/array/index/reshape.hpp"
 #include "nmtools/utility/ct_map.hpp"
@@ -292,6 +294,22 @@ def _result_witnesses():
                 "void f(%s& a){ using V = decltype(%s); static_assert(result_holds_every_size<V>()); static_assert(result_holds_every_size<V, na::eval_result_t<na::LayoutKind::COLUMN_MAJOR>>()); }" % (st, ve)))
     return out
 WITNESSES += _result_witnesses()
+
+# ---------------- C10: whatever resolver allocates the result, its element type is the view's element type (a narrower one truncates the
+#                  evaluated values only) - operand kinds and orders of a mixed-type binary view, legacy (default of na::eval) and eager resolver
+def _eval_elem_witnesses():
+    out = []
+    pre = ("using dyn_i = na::dynamic_ndarray<int>; using dyn_f = na::dynamic_ndarray<float>; using fx_f = na::fixed_ndarray<float,3>; using fx_i = na::fixed_ndarray<int,3>; using hy_f = na::hybrid_ndarray<float,3,1>;\n"
+           "template <class V> using legacy_result_t = std::remove_cv_t<std::remove_reference_t<decltype(na::eval(std::declval<const V&>()))>>;\n")
+    combos = dict(raw_f_dyn_i=("float (&a)[3], dyn_i& b", "a, b"), dyn_i_raw_f=("float (&a)[3], dyn_i& b", "b, a"), fx_f_dyn_i=("fx_f& a, dyn_i& b", "a, b"), dyn_i_fx_f=("fx_f& a, dyn_i& b", "b, a"),
+                  hy_f_dyn_i=("hy_f& a, dyn_i& b", "a, b"), fx_i_dyn_f=("fx_i& a, dyn_f& b", "a, b"), dyn_f_dyn_i=("dyn_f& a, dyn_i& b", "a, b"), dyn_i_dyn_f=("dyn_f& a, dyn_i& b", "b, a"))
+    for k, (params, args) in combos.items():
+        out.append(W("c10_elem_" + k, "C10", "pass", "add(%s) with mixed element types: the arrays the legacy and the eager resolver allocate hold the view's element type (float)" % k,
+            pre + "void f(%s){ auto v = nm::unwrap(view::add(%s)); using V = decltype(v); static_assert(std::is_same_v<elem_of<V>, float>); "
+            "static_assert(std::is_same_v<meta::get_element_type_t<legacy_result_t<V>>, float>, \"legacy resolver\"); "
+            "static_assert(std::is_same_v<meta::get_element_type_t<eval_result_of<V, na::eval_result_t<>>>, float>, \"eager resolver\"); }" % (params, args)))
+    return out
+WITNESSES += _eval_elem_witnesses()
 
 # ---------------- C07: the element type of an element-wise view is the type the scalar operation yields for the operand element types
 #                  (C++ usual arithmetic conversions, bool for comparisons)
